@@ -40,7 +40,7 @@ def OrphanBounds (pol : Policy) (s : Pool) : Prop :=
 /-- what a block requires of one transaction, given the outputs available before it -/
 def TxValidAt (c : Chain) (earlier : List TxAbs) (t : TxAbs) : Prop :=
   t.ins.Nodup ∧ t.sane = true ∧ t.coinbase = false ∧ t.valuesOk = true ∧ t.scriptsOk = true ∧
-  isFinal t (c.height + 1) c.mtp = true ∧
+  seqLocksOk c t = true ∧ isFinal t (c.height + 1) c.mtp = true ∧
   (∀ x ∈ t.ins, immature c x = false) ∧
   (∀ x ∈ t.ins, (c.has x = true ∨ ∃ p ∈ earlier, OutputOf x p) ∧ ∀ q ∈ earlier, x ∉ q.ins)
 
